@@ -14,7 +14,7 @@ pub fn take_log() -> Vec<String> {
     LOG.with(|l| std::mem::take(&mut *l.borrow_mut()))
 }
 
-fn logcall(name: &str, args: &[Value]) {
+pub fn logcall(name: &str, args: &[Value]) {
     let mut s = format!("(call {}", sx_str(name));
     for a in args {
         s.push(' ');
